@@ -83,7 +83,7 @@ class SegmentEnd:
       raise gfapy.TypeError(
         "Invalid class ({}) for segment reference ({})"
         .format(self.segment.__class__, self.segment))
-    if not re.match(r"^[!-~]+$", string):
+    if not re.match(r"^[!-~]+\Z", string):
       raise gfapy.FormatError(
       "{} is not a valid segment identifier\n".format(repr(string))+
       "(it contains spaces or non-printable characters)")
